@@ -130,6 +130,12 @@ def model_value(model, v, heap, memo=None):
     description (ints, bools, bytes, lists, dicts {'__obj__': cls, fields})"""
     if memo is None:
         memo = {}
+    if type(v).__name__ == 'LazyVal':
+        lz = memo.get('__lazy__', {})
+        if v.lid in lz:
+            return model_value(model, lz[v.lid], heap, memo)
+        o = v.options[0]
+        return o if not hasattr(o, '__dict__') or isinstance(o, tuple) else None
     if isinstance(v, Sym):
         return eval_term(model, v.t, v.k)
     if isinstance(v, tuple):
@@ -225,44 +231,101 @@ def _array_keys(a, keys):
 
 _OBS = None
 _CFG = None
+_GROUPS = None
 
 
-def _work(i):
-    ob = _OBS[i]
-    try:
-        r = discharge(ob, _CFG['timeout_ms'], _CFG.get('seed', 0), _CFG.get('both', False))
-    except z3.Z3Exception as e:
-        return i, {'status': 'unknown', 'backend': 'z3', 'time': 0.0, 'detail': f'z3 exception {e}'}
+def _concretise(ob, r):
     m = r.pop('model', None)
     if m is not None:
         pre = ob.info.get('prestate')
         if pre is not None:
             try:
-                memo = {}
+                memo = {'__lazy__': pre.get('lazy', {})}
                 r['cex'] = {
                     'env': {n: model_value(m, v, pre['heap'], memo) for n, v in pre['env'].items()},
                     'ghost': model_value(m, pre['ghost'], pre['heap'], memo),
                 }
+                head = ob.info.get('headstate')
+                if head is not None:
+                    memo2 = {'__lazy__': head.get('lazy', {})}
+                    r['cex_head'] = {
+                        'env': {n: model_value(m, v, head['heap'], memo2) for n, v in head['env'].items() if not n.startswith('__')},
+                        'ghost': model_value(m, head['ghost'], head['heap'], memo2),
+                    }
             except Exception as e:  # concretisation is best effort
                 r['cex_error'] = repr(e)
-    return i, r
+    return r
+
+
+def _work_one(i):
+    ob = _OBS[i]
+    try:
+        r = discharge(ob, _CFG['timeout_ms'], _CFG.get('seed', 0), _CFG.get('both', False))
+    except z3.Z3Exception as e:
+        return {'status': 'unknown', 'backend': 'z3', 'time': 0.0, 'detail': f'z3 exception {e}'}
+    return _concretise(ob, r)
+
+
+def _work(gi):
+    grp = _GROUPS[gi]
+    if len(grp) > 1:
+        obs = [_OBS[i] for i in grp]
+        gids = {id(o.goal) for o in obs}
+        pc = [p for p in obs[-1].pc if id(p) not in gids]
+        from .engine import Obligation
+
+        conj = Obligation('group', 'group', pc, z3.And(*[o.goal for o in obs]))
+        try:
+            r = discharge(conj, _CFG['timeout_ms'], _CFG.get('seed', 0), False)
+        except z3.Z3Exception:
+            r = {'status': 'unknown'}
+        if r['status'] == 'proved':
+            t = r['time'] / len(grp)
+            return [(i, {'status': 'proved', 'backend': r['backend'] + '(grouped)', 'time': t}) for i in grp]
+    return [(i, _work_one(i)) for i in grp]
+
+
+def make_groups(obligations, max_group=1):
+    groups = []
+    cur = []
+    for i, ob in enumerate(obligations):
+        ok = False
+        if cur and not ob.expect_sat and len(cur) < max_group:
+            prev = obligations[cur[-1]]
+            if prev.info.get('decisions') == ob.info.get('decisions') and not prev.expect_sat and len(ob.pc) >= len(prev.pc):
+                defs = ob.info.get('def_ids', ())
+                extra = ob.pc[len(prev.pc):]
+                if all(id(p) in defs or p is prev.goal for p in extra) and all(a is b for a, b in zip(prev.pc[-3:], ob.pc[len(prev.pc) - 3:len(prev.pc)])):
+                    ok = True
+        if ok:
+            cur.append(i)
+        else:
+            if cur:
+                groups.append(cur)
+            cur = [i]
+    if cur:
+        groups.append(cur)
+    return groups
 
 
 def discharge_all(obligations, timeout_ms=20000, procs=14, seed=0, both=False):
     import multiprocessing as mp
 
-    global _OBS, _CFG
+    global _OBS, _CFG, _GROUPS
     _OBS = obligations
     _CFG = {'timeout_ms': timeout_ms, 'seed': seed, 'both': both}
     if not obligations:
         return []
+    _GROUPS = make_groups(obligations) if not both else [[i] for i in range(len(obligations))]
     out = [None] * len(obligations)
-    if procs <= 1 or len(obligations) < 4:
-        for i in range(len(obligations)):
-            out[i] = _work(i)[1]
+    if procs <= 1 or len(_GROUPS) < 4:
+        for gi in range(len(_GROUPS)):
+            for i, r in _work(gi):
+                out[i] = r
         return out
     ctx = mp.get_context('fork')
-    with ctx.Pool(min(procs, len(obligations))) as pool:
-        for i, r in pool.imap_unordered(_work, range(len(obligations)), chunksize=4):
-            out[i] = r
+    with ctx.Pool(min(procs, len(_GROUPS))) as pool:
+        for lst in pool.imap_unordered(_work, range(len(_GROUPS)), chunksize=2):
+            for i, r in lst:
+                out[i] = r
     return out
